@@ -446,6 +446,64 @@ theorem scan_excl : ∀ (rest : Fields) (m : PMethod) (acc : List String),
         have := ih .exc (acc ++ [field]) (by decide)
         simpa [aggScan, hfl, ht, dkeys, e, anyIncl, anyPlain] using this
 
+/-- an exclusion that has started stays one: `_id` may carry any flag (`_id: 1` is accepted) -/
+theorem scan_excl_id : ∀ (rest : Fields) (acc : List String),
+    (∀ kv ∈ rest, kv.1 ≠ "_id" → flagOf kv.2 = some false) →
+    (∀ kv ∈ rest, kv.1 = "_id" → ∃ x, flagOf kv.2 = some x) →
+    aggScan rest .exc acc = .ok (.exc, acc ++ dkeys (rest.filter (fun kv => kv.1 != "_id")))
+  | [], acc, _, _ => by simp [aggScan, dkeys]
+  | (field, value) :: r, acc, h1, h2 => by
+    have ih := fun acc' => scan_excl_id r acc'
+      (fun kv hkv => h1 kv (by simp [hkv])) (fun kv hkv => h2 kv (by simp [hkv]))
+    by_cases e : field = "_id"
+    · subst e
+      obtain ⟨x, hx⟩ := h2 ("_id", value) (by simp) rfl
+      have hfl : isFlag value = true := isFlag_of_flagOf hx
+      have ht : value.truthy = _ := flagOf_truthy hx
+      have h1' : pyEq value (.int 1) = _ := flagOf_pyEq_one hx
+      have := ih acc
+      cases x <;> simpa [aggScan, hfl, ht, h1', dkeys] using this
+    · have hx := h1 (field, value) (by simp) e
+      have hfl : isFlag value = true := isFlag_of_flagOf hx
+      have ht : value.truthy = _ := flagOf_truthy hx
+      have := ih (acc ++ [field])
+      simpa [aggScan, hfl, ht, dkeys, e] using this
+
+/-- the method the stage starts from: decided by the first field other than `_id` -/
+theorem aggInit_not_exc : ∀ (l : Fields), (∀ kv ∈ l, kv.1 ≠ "_id" → kv.2.truthy = true) →
+    aggInitMethod l ≠ .exc
+  | [], _ => by simp [aggInitMethod]
+  | (k, v) :: r, h => by
+    by_cases e : k = "_id"
+    · subst e
+      simpa [aggInitMethod] using aggInit_not_exc r (fun kv hkv => h kv (by simp [hkv]))
+    · have := h (k, v) (by simp) e
+      simp only at this
+      simp [aggInitMethod, e, this]
+
+theorem aggInit_not_inc : ∀ (l : Fields), (∀ kv ∈ l, kv.1 ≠ "_id" → kv.2.truthy = false) →
+    aggInitMethod l ≠ .inc
+  | [], _ => by simp [aggInitMethod]
+  | (k, v) :: r, h => by
+    by_cases e : k = "_id"
+    · subst e
+      simpa [aggInitMethod] using aggInit_not_inc r (fun kv hkv => h kv (by simp [hkv]))
+    · have := h (k, v) (by simp) e
+      simp only at this
+      simp [aggInitMethod, e, this]
+
+theorem aggInit_exc : ∀ (l : Fields), (∀ kv ∈ l, kv.1 ≠ "_id" → kv.2.truthy = false) →
+    l.filter (fun kv => kv.1 != "_id") ≠ [] → aggInitMethod l = .exc
+  | [], _, hne => by simp at hne
+  | (k, v) :: r, h, hne => by
+    by_cases e : k = "_id"
+    · subst e
+      have hne' : r.filter (fun kv => kv.1 != "_id") ≠ [] := by simpa using hne
+      simpa [aggInitMethod] using aggInit_exc r (fun kv hkv => h kv (by simp [hkv])) hne'
+    · have := h (k, v) (by simp) e
+      simp only at this
+      simp [aggInitMethod, e, this]
+
 /-! ### `_id` appended to the list of fields -/
 
 theorem tailsOf_append (k : String) (a b : List Path) :
@@ -568,7 +626,6 @@ theorem agg_exact (p d : Val) (h : aggReasons p d = []) :
       split at h
       · cases h
       · next n hn =>
-        have hidx := ite_single_nil.mp h
         have ok := specOk_of_reasons hs
         obtain ⟨idf, hreads, hkeep, hcase⟩ := normDict_some hn
         refine ⟨.doc (projectNorm n fs), by simp [project, hn], ?_⟩
@@ -602,13 +659,18 @@ theorem agg_exact (p d : Val) (h : aggReasons p d = []) :
           · obtain ⟨x, hx⟩ := hidx' kv hkv e; exact isFlag_of_flagOf hx
           · exact isFlag_of_flagOf (hnonid kv hkv e)
         -- the scan
-        have hscan : ∃ m, aggScan (f :: r) .unset [] =
+        have hscan : ∃ m, aggScan (f :: r) (aggInitMethod (f :: r)) [] =
             .ok (m, dkeys ((f :: r).filter (fun kv => kv.1 != "_id"))) ∧
             decide (m = PMethod.inc) = n.incl := by
           cases hb : n.incl with
           | true =>
-            have hsc := scan_incl (f :: r) .unset []
-              (fun kv hkv hne' => by rw [← hb]; exact hnonid kv hkv hne') hidx' (by decide)
+            have hinit : aggInitMethod (f :: r) ≠ .exc :=
+              aggInit_not_exc _ (fun kv hkv hne' => by
+                have := hnonid kv hkv hne'
+                rw [hb] at this
+                exact flagOf_truthy this)
+            have hsc := scan_incl (f :: r) (aggInitMethod (f :: r)) []
+              (fun kv hkv hne' => by rw [← hb]; exact hnonid kv hkv hne') hidx' hinit
             have hany : anyIncl (f :: r) = true := by
               rcases hcase with ⟨hpl, hincl, _⟩ | ⟨hpl, _, _⟩
               · have e : f.1 = "_id" := by
@@ -634,19 +696,31 @@ theorem agg_exact (p d : Val) (h : aggReasons p d = []) :
             refine ⟨_, by simpa using hsc, ?_⟩
             simp [hany]
           | false =>
-            have hflags : ∀ kv ∈ (f :: r), flagOf kv.2 = some false := by
-              intro kv hkv
-              by_cases e : kv.1 = "_id"
-              · obtain ⟨x, hx⟩ := hidx' kv hkv e
-                have hd := dget_of_mem_nodup ok.nodup (show (kv.1, kv.2) ∈ f :: r from hkv)
-                rw [e] at hd
-                cases x with
-                | false => exact hx
-                | true => exfalso; apply hidx; simp [hb, hd, hx]
-              · rw [← hb]; exact hnonid kv hkv e
-            have hsc := scan_excl (f :: r) .unset [] hflags (by decide)
-            refine ⟨_, by simpa using hsc, ?_⟩
-            split <;> rfl
+            have hnf : ∀ kv ∈ (f :: r), kv.1 ≠ "_id" → flagOf kv.2 = some false := by
+              intro kv hkv e; rw [← hb]; exact hnonid kv hkv e
+            rcases hcase with ⟨hpl, hincl, _⟩ | ⟨hpl, _, _⟩
+            · -- only `_id`: its flag is false
+              have hidf : idf = some false := by
+                rw [hb] at hincl
+                cases idf with
+                | none => simp at hincl
+                | some x => cases x <;> simp at hincl ⊢
+              have hflags : ∀ kv ∈ (f :: r), flagOf kv.2 = some false := by
+                intro kv hkv
+                by_cases e : kv.1 = "_id"
+                · have := hidflag kv hkv e; rw [hidf] at this; exact this
+                · exact hnf kv hkv e
+              have hninc : aggInitMethod (f :: r) ≠ .inc :=
+                aggInit_not_inc _ (fun kv hkv e => flagOf_truthy (hnf kv hkv e))
+              have hsc := scan_excl (f :: r) (aggInitMethod (f :: r)) [] hflags hninc
+              refine ⟨_, by simpa using hsc, ?_⟩
+              split <;> rfl
+            · -- excluded fields: an exclusion from the start, whatever flag `_id` carries
+              have hinit : aggInitMethod (f :: r) = .exc :=
+                aggInit_exc _ (fun kv hkv e => flagOf_truthy (hnf kv hkv e)) hpl
+              have hsc := scan_excl_id (f :: r) [] hnf hidx'
+              rw [hinit]
+              exact ⟨.exc, by simpa using hsc, rfl⟩
         obtain ⟨m, hscan, hm⟩ := hscan
         have hidinc : (!(pyEq ((dget "_id" (f :: r)).getD (.int 1)) (.int 0))) =
             (idf != some false) := by rw [idReads_zero hreads]; simp
